@@ -6,7 +6,7 @@
 (*   contract  GroupEndsAlign / NeverLeft / SpanRespected / NeighboursAlign / OnTabStop,         *)
 (*             evaluated on the OBSERVED columns with the groups the machine forms               *)
 (*   mechanism ColumnsAsModel   cols = Cols(prog)                                     (DRIFT)    *)
-(*             SecondRunAsModel again = ColsAgain(prog): the columns after the binary has        *)
+(*             SecondRunAsModel again = ColsAgainK(prog, keep): the columns after the binary has *)
 (*             formatted its own output once more (<<>> when the run was not repeated)  (DRIFT)   *)
 EXTENDS Align, IOUtils
 TraceLog == ndJsonDeserialize(IOEnv.TRACE)
@@ -29,7 +29,7 @@ Judge == (l > 1 /\ l - 1 <= Len(TraceLog)) =>
                       (IF ~OnTabStop(prog, O) THEN {"OnTabStop"} ELSE {}) \cup
                       (IF \E i \in 1..Len(prog) : prog[i].asg /\ Final(prog, R, i) = 0 /\ e.cols[i] # ColOf(prog[i]) THEN {"UngroupedStays"} ELSE {})
                drift == (IF e.rc = 0 /\ e.cols # Cols(prog) THEN {"ColumnsAsModel"} ELSE {}) \cup
-                        (IF e.rc = 0 /\ e.again # <<>> /\ e.again # ColsAgain(prog) THEN {"SecondRunAsModel"} ELSE {})
-           IN (bad # {} \/ drift # {}) => PrintT("@@" \o ToJson([l |-> l - 1, id |-> e.id, bad |-> bad, drift |-> drift, expected |-> Cols(prog), again |-> ColsAgain(prog)]))
+                        (IF e.rc = 0 /\ e.again # <<>> /\ e.again # ColsAgainK(prog, e.keep) THEN {"SecondRunAsModel"} ELSE {})
+           IN (bad # {} \/ drift # {}) => PrintT("@@" \o ToJson([l |-> l - 1, id |-> e.id, bad |-> bad, drift |-> drift, expected |-> Cols(prog), again |-> ColsAgainK(prog, e.keep)]))
 TraceAccepted == TLCGet("stats").diameter - 1 = Len(TraceLog)
 =============================================================================
